@@ -371,7 +371,14 @@ func (g *Geometry) UnmarshalJSON(buffer []byte) error {
 }
 
 func (g Geometry) MapGeometryGeometries(f GeometryMapFunction) (Geometry, error) {
+	if g.Coordinates == nil {
+		// A feature without a geometry has nothing to map
+		return g, nil
+	}
 	if mapped, err := f(g.Coordinates); err == nil {
+		if mapped == nil {
+			return Geometry{}, fmt.Errorf("geometry mapped to nil")
+		}
 		return GeometryFromCoordinates(mapped), nil
 	} else {
 		return Geometry{}, err
